@@ -95,7 +95,20 @@ def build(cfg):
             names = list(r.get_intermediate_particles().names)
         for n in names:
             b.dynamics.assign(n, dyn)
-    return r, b, b.formulate()
+    model = b.formulate()
+    rn = cfg.get("rename_nth")
+    if rn:  # C01 must also hold for the model rename_symbols returns (k-th parameter / kinematic variable, sorted by name)
+        pars = sorted((str(k) for k in model.parameter_defaults), key=str)
+        kins = sorted((str(k) for k in model.kinematic_variables), key=str)
+        mapping = {}
+        for k in rn.get("par", []):
+            if pars:
+                mapping[pars[k % len(pars)]] = f"renamedP{k}"
+        for k in rn.get("kin", []):
+            if kins:
+                mapping[kins[k % len(kins)]] = f"renamedK{k}"
+        model = model.rename_symbols(mapping)
+    return r, b, model
 
 
 def random_cfg(rng, name, max_align_cost=True, unaligned=False):
@@ -121,14 +134,18 @@ def random_cfg(rng, name, max_align_cost=True, unaligned=False):
         # a lineshape can also be assigned to the production node (parent = initial state)
         pool = names + [next(iter(r.initial_state.values())).name]
         dyn_names = sorted(rng.sample(pool, rng.randint(1, len(pool))))
-    return {"reaction": name, "keep": keep, "align": al, "scalar_m0": rng.random() < 0.4,
+    rename_nth = None
+    if rng.random() < 0.2 and not unaligned:  # (C02's unaligned lattice compares names: no renaming there)
+        rename_nth = {"par": [rng.randrange(50) for _ in range(rng.randint(0, 2))],
+                      "kin": [rng.randrange(50) for _ in range(rng.randint(0, 2))]}
+    return {"reaction": name, "rename_nth": rename_nth, "keep": keep, "align": al, "scalar_m0": rng.random() < 0.4,
             "stable": stable, "couplings": rng.random() < 0.3,
             "ins_parent": rng.choice([None, True, False]), "ins_child": rng.choice([None, True, False]),
             "permutate": (rng.random() < 0.25 and nf <= 4), "dyn": dyn, "dyn_names": dyn_names}
 
 
 def default_cfg(name, **kw):
-    cfg = {"reaction": name, "keep": None, "align": "none", "scalar_m0": False, "stable": None,
+    cfg = {"reaction": name, "rename_nth": None, "keep": None, "align": "none", "scalar_m0": False, "stable": None,
            "couplings": False, "ins_parent": None, "ins_child": None, "permutate": False,
            "dyn": "none", "dyn_names": None}
     cfg.update(kw)
